@@ -861,6 +861,265 @@ Theorem C19_slist_max_level_agrees_generated : forall cnt levels : nat,
 Proof. exact sl_max_level_agrees_generated. Qed.
 Print Assumptions C19_slist_max_level_agrees_generated.
 
+(* ======================================================================================
+   byte buffer, round 2 (coq/Dsa/Buf_split_limit.v): ares_buf_split with a section limit and
+   with KEEP_DELIMS, against ordinary field splitting
+   ====================================================================================== *)
+From CAres.Dsa Require Import Buf_split_limit.
+Local Open Scope Z_scope.
+
+(* what ares_buf_split returns for a non-empty input is the reference machine's piece list of
+   the remaining bytes (so the closed forms below are statements about the code-shaped model) *)
+Theorem C19_buf_split_pieces_machine : forall b delims flags max_sections,
+  buf_inv b -> 0 <= flags -> 0 <= max_sections -> 0 < buf_zlen delims -> buf_remaining b <> [] ->
+  exists b', buf_split true (fun _ => true) b delims flags max_sections =
+             Ok (ARES_SUCCESS, b', fst (bufs_split delims flags max_sections (buf_remaining b))) /\
+             buf_inv b' /\ buf_remaining b' = [] /\ buf_consumed b' = buf_consumed b ++ buf_remaining b.
+Proof. exact buf_split_pieces_machine. Qed.
+Print Assumptions C19_buf_split_pieces_machine.
+
+(* (a) no KEEP_DELIMS, any limit, any other flags: the trim / blank / duplicate filter applied to
+   the fields in order; as soon as max_sections - 1 pieces have been KEPT, the whole unsplit
+   rest of the input that starts at the next field (delimiters included) is filtered as one
+   last piece ([buf_split_limit_spec]; [buf_fields_suffix] pairs every field with that rest) *)
+Theorem C19_buf_split_limit_fields : forall delims flags max_sections,
+  buf_flag flags ARES_BUF_SPLIT_KEEP_DELIMS = false ->
+  forall l, fst (bufs_split delims flags max_sections l) =
+            buf_split_limit_spec flags max_sections [] (buf_fields_suffix (buf_in_charset delims) l).
+Proof. exact bufs_split_limit_fields. Qed.
+Print Assumptions C19_buf_split_limit_fields.
+
+Theorem C19_buf_fields_suffix_fst : forall isd l, map fst (buf_fields_suffix isd l) = buf_fields isd l.
+Proof. exact buf_fields_suffix_fst. Qed.
+Print Assumptions C19_buf_fields_suffix_fst.
+
+(* the rest paired with field i = fields i, i+1, ... re-joined with the delimiters between them *)
+Theorem C19_buf_fields_suffix_rest : forall isd l cur,
+  exists ds, Forall (fun d => isd d = true) ds /\
+    length (buf_fields_suffix_go isd cur l) = S (length ds) /\
+    forall i, (i < length (buf_fields_suffix_go isd cur l))%nat ->
+      snd (nth i (buf_fields_suffix_go isd cur l) ([], [])) =
+      buf_interleave (skipn i (buf_fields_go isd cur l)) (skipn i ds).
+Proof. exact buf_fields_suffix_go_rest. Qed.
+Print Assumptions C19_buf_fields_suffix_rest.
+
+(* (a) ALLOW_BLANK with a limit n: at most n pieces, interleaved with the removed delimiters
+   they give back the input; only the last piece may contain delimiters, and only when the
+   limit was reached *)
+Theorem C19_buf_split_limit_partition : forall delims n, 0 < n < 2 ^ 64 -> forall l,
+  let pieces := fst (bufs_split delims ARES_BUF_SPLIT_ALLOW_BLANK n l) in
+  exists ds, Forall (fun d => buf_in_charset delims d = true) ds /\ length pieces = S (length ds) /\
+             buf_interleave pieces ds = l /\ buf_zlen pieces <= n /\
+             Forall (Forall (fun c => buf_in_charset delims c = false)) (removelast pieces) /\
+             (buf_zlen pieces < n -> Forall (Forall (fun c => buf_in_charset delims c = false)) pieces).
+Proof. exact bufs_split_limit_partition. Qed.
+Print Assumptions C19_buf_split_limit_partition.
+
+(* (b) KEEP_DELIMS, no limit, any other flags: the filter folded over the KEEP_DELIMS sections *)
+Theorem C19_buf_split_keep_fields : forall delims flags l,
+  buf_flag flags ARES_BUF_SPLIT_KEEP_DELIMS = true ->
+  fst (bufs_split delims flags 0 l) =
+  fold_left (fun a f => bufs_split_emit flags a (rev f)) (buf_fields_keep (buf_in_charset delims) l) [].
+Proof. exact bufs_split_keep_fields. Qed.
+Print Assumptions C19_buf_split_keep_fields.
+
+(* the KEEP_DELIMS sections: concatenated they are the input; they are the ordinary fields, each
+   one after the first with the delimiter that preceded it in front *)
+Theorem C19_buf_fields_keep_spec : forall isd l,
+  concat (buf_fields_keep isd l) = l /\
+  exists ds, Forall (fun d => isd d = true) ds /\
+    length (tl (buf_fields isd l)) = length ds /\
+    buf_fields_keep isd l = hd [] (buf_fields isd l) ::
+                            map (fun df => fst df :: snd df) (combine ds (tl (buf_fields isd l))).
+Proof. exact buf_fields_keep_spec. Qed.
+Print Assumptions C19_buf_fields_keep_spec.
+
+(* (b) KEEP_DELIMS without trim / duplicate flags, any limit, with or without ALLOW_BLANK: the
+   plain concatenation of the pieces is the input; every piece after the first begins with a
+   delimiter (so it is never blank: the header comment of ares_buf.h is inaccurate there) *)
+Theorem C19_buf_split_keep_concat : forall delims flags max_sections,
+  buf_flag flags ARES_BUF_SPLIT_KEEP_DELIMS = true ->
+  buf_flag flags ARES_BUF_SPLIT_LTRIM = false -> buf_flag flags ARES_BUF_SPLIT_RTRIM = false ->
+  buf_flag flags ARES_BUF_SPLIT_NO_DUPLICATES = false ->
+  forall l, concat (fst (bufs_split delims flags max_sections l)) = l /\
+            Forall (buf_starts_delim (buf_in_charset delims)) (tl (fst (bufs_split delims flags max_sections l))).
+Proof. exact bufs_split_keep_concat. Qed.
+Print Assumptions C19_buf_split_keep_concat.
+
+(* (b) KEEP_DELIMS with LTRIM / RTRIM: trimming removes whitespace only (possibly the kept
+   delimiter itself); after deleting all whitespace the concatenation equals the input *)
+Theorem C19_buf_split_keep_trim_concat : forall delims flags max_sections,
+  buf_flag flags ARES_BUF_SPLIT_NO_DUPLICATES = false -> forall l,
+  buf_flag flags ARES_BUF_SPLIT_KEEP_DELIMS = true ->
+  filter buf_nonws (concat (fst (bufs_split delims flags max_sections l))) = filter buf_nonws l.
+Proof. exact bufs_split_keep_trim_concat. Qed.
+Print Assumptions C19_buf_split_keep_trim_concat.
+
+(* ======================================================================================
+   byte buffer, round 2: allocation failure in the MIDDLE of ares_buf_split; append_num_dec /
+   _hex; parse_dns_binstr / _str; agreement with the Wire read-side model
+   (coq/Dsa/Buf_proofs.v, Buf_num_props.v, Buf_wire_agree.v)
+   ====================================================================================== *)
+From CAres.Dsa Require Import Buf_num_props Buf_wire_agree.
+From CAres.Wire Require Cursor.
+
+(* ares_buf_split under ANY behaviour of the allocator ([okp i] = the requests for the i-th kept
+   piece are granted).  Either no request for a piece that the split produces is refused: same
+   result as the run in which nothing is refused.  Or the first k pieces get their memory, a
+   request for piece k is refused: ARES_ENOMEM, NO pieces (the finished ones are destroyed with
+   the array).  Then memory, data_len, alloc_buf_len and the pointers are unchanged ([buf_at]);
+   NOT restored: the cursor (it stays behind the section of piece k: o) and the tag (overwritten
+   with the start of that section: t; it is overwritten on success as well).  The cursor only
+   moved forward inside the input: remaining bytes = a suffix of the previous remaining bytes.
+   Never UB / out of fuel (the result is always Ok). *)
+Theorem C19_buf_split_okp : forall okp b delims flags max_sections,
+  buf_inv b -> 0 <= flags -> 0 <= max_sections ->
+  exists st b' pieces,
+    buf_split true (fun _ => true) b delims flags max_sections = Ok (st, b', pieces) /\
+    ( (buf_split true okp b delims flags max_sections = Ok (st, b', pieces) /\
+       forall i, (i < length pieces)%nat -> okp i = true)
+      \/
+      (exists k o t, (k < length pieces)%nat /\ okp k = false /\ (forall i, (i < k)%nat -> okp i = true) /\
+         buf_split true okp b delims flags max_sections = Ok (ARES_ENOMEM, buf_at b o t, []) /\
+         cb_off b <= t <= o /\ o <= cb_dlen b /\ buf_inv (buf_at b o t) /\
+         buf_remaining (buf_at b o t) = buf_drop (o - cb_off b) (buf_remaining b) /\
+         buf_consumed (buf_at b o t) = buf_consumed b ++ buf_take (o - cb_off b) (buf_remaining b)) ).
+Proof. exact buf_split_okp. Qed.
+Print Assumptions C19_buf_split_okp.
+
+(* the operation of the tie ("!<n>sx": exactly the n-th allocation request of the call is
+   refused; request 0 = the array, then per kept piece its ares_buf_t and - pieces 0, 4, 8, 16,
+   ... - the growth of the array) against the byte-queue specification *)
+Theorem C19_buf_split_fail_at_refines : forall n b delims flags max_sections,
+  buf_inv b -> 0 <= n -> 0 <= flags -> 0 <= max_sections ->
+  exists st b' pieces, buf_split_fail_at n b delims flags max_sections = Ok (st, b', pieces) /\
+    buf_inv b' /\ cb_mem b' = cb_mem b /\
+    In (mkBufObs st [buf_zlen pieces] pieces, buf_abs b') (bufs_split_fail_alts n (buf_abs b) delims flags max_sections).
+Proof. exact buf_split_fail_at_refines. Qed.
+Print Assumptions C19_buf_split_fail_at_refines.
+
+(* ares_buf_append_num_dec / _hex (with fixes/C19-buf-append-num-atomic.patch and
+   -num-width.patch) ARE ares_buf_append of the digits of num: [bufs_num_bytes] = the len least
+   significant digits (div/mod recursion [bufs_num_digits]), most significant first, i.e. zero
+   padded on the left when num has fewer digits, its LEADING digits cut off when it has more;
+   len = 0: the natural width ([bufs_num_width], at least 1).  Hence every theorem about
+   ares_buf_append (refinement, C19_buf_append_total, ENOMEM atomicity) carries over. *)
+Theorem C19_buf_append_num_dec_eq : forall junk ok b num len,
+  buf_inv b -> 0 <= num < 2 ^ 64 -> 0 <= len < BUF_ALLOC_LIMIT ->
+  buf_append_num_dec junk ok b num len = buf_append junk ok b (bufs_num_bytes 10 bufs_dec_char num len).
+Proof. exact buf_append_num_dec_eq. Qed.
+Print Assumptions C19_buf_append_num_dec_eq.
+
+Theorem C19_buf_append_num_hex_eq : forall junk ok b num len,
+  buf_inv b -> 0 <= num < 2 ^ 64 -> 0 <= len < BUF_ALLOC_LIMIT ->
+  buf_append_num_hex junk ok b num len = buf_append junk ok b (bufs_num_bytes 16 bufs_hex_char num len).
+Proof. exact buf_append_num_hex_eq. Qed.
+Print Assumptions C19_buf_append_num_hex_eq.
+
+Theorem C19_buf_append_num_dec_total : forall junk b num len,
+  buf_inv b -> buf_not_const b -> 0 <= num < 2 ^ 64 -> 0 <= len < 2 ^ 59 -> cb_dlen b < 2 ^ 59 ->
+  exists b', buf_append_num_dec junk true b num len = Ok (ARES_SUCCESS, b') /\
+             buf_remaining b' = buf_remaining b ++ bufs_num_bytes 10 bufs_dec_char num len.
+Proof. exact buf_append_num_dec_total. Qed.
+Print Assumptions C19_buf_append_num_dec_total.
+
+Theorem C19_buf_append_num_hex_total : forall junk b num len,
+  buf_inv b -> buf_not_const b -> 0 <= num < 2 ^ 64 -> 0 <= len < 2 ^ 59 -> cb_dlen b < 2 ^ 59 ->
+  exists b', buf_append_num_hex junk true b num len = Ok (ARES_SUCCESS, b') /\
+             buf_remaining b' = buf_remaining b ++ bufs_num_bytes 16 bufs_hex_char num len.
+Proof. exact buf_append_num_hex_total. Qed.
+Print Assumptions C19_buf_append_num_hex_total.
+
+(* C14 container lemmas: ENOMEM leaves the byte queue and the tagged region unchanged *)
+Theorem C19_buf_append_num_dec_alloc_fail_atomic : forall junk ok b num len st b',
+  buf_inv b -> 0 <= num < 2 ^ 64 -> 0 <= len < BUF_ALLOC_LIMIT ->
+  buf_append_num_dec junk ok b num len = Ok (st, b') -> st = ARES_ENOMEM ->
+  buf_inv b' /\ buf_remaining b' = buf_remaining b /\ bufs_tagged (buf_abs b') = bufs_tagged (buf_abs b).
+Proof. exact buf_append_num_dec_alloc_fail_atomic. Qed.
+Print Assumptions C19_buf_append_num_dec_alloc_fail_atomic.
+
+Theorem C19_buf_append_num_hex_alloc_fail_atomic : forall junk ok b num len st b',
+  buf_inv b -> 0 <= num < 2 ^ 64 -> 0 <= len < BUF_ALLOC_LIMIT ->
+  buf_append_num_hex junk ok b num len = Ok (st, b') -> st = ARES_ENOMEM ->
+  buf_inv b' /\ buf_remaining b' = buf_remaining b /\ bufs_tagged (buf_abs b') = bufs_tagged (buf_abs b).
+Proof. exact buf_append_num_hex_alloc_fail_atomic. Qed.
+Print Assumptions C19_buf_append_num_hex_alloc_fail_atomic.
+
+(* the code BEFORE the patches (refutation witnesses, reproduced on the real library by the
+   corpus cases "!nd:12:0" with one byte of room, "nd:18446744073709551615:0", "nh:255:17") *)
+Theorem C19_buf_append_num_dec_unfixed_refuted :
+  exists b b', buf_inv b /\
+    buf_append_num_dec_unfixed (fun _ => 0) (fun k => Nat.eqb k 0) b 12 0 = Ok (ARES_ENOMEM, b') /\
+    buf_remaining b' = buf_remaining b ++ [49] /\ buf_remaining b' <> buf_remaining b.
+Proof. exact buf_append_num_dec_unfixed_not_atomic. Qed.
+Print Assumptions C19_buf_append_num_dec_unfixed_refuted.
+
+Theorem C19_buf_append_num_dec_unfixed_digits_refuted :
+  exists b', buf_append_num_dec_unfixed (fun _ => 0) (fun _ => true) buf_empty 18446744073709551615 0
+             = Ok (ARES_EFORMERR, b') /\
+             buf_remaining b' = [51; 55; 53; 50; 51; 53; 54; 50; 55; 54; 51; 51; 53; 56; 50; 50; 52; 50].
+Proof. exact buf_append_num_dec_unfixed_wrong_digits. Qed.
+Print Assumptions C19_buf_append_num_dec_unfixed_digits_refuted.
+
+Theorem C19_buf_append_num_hex_unfixed_refuted :
+  buf_append_num_hex_unfixed (fun _ => 0) (fun _ => true) buf_empty 255 17 = UB ShiftTooWide.
+Proof. exact buf_append_num_hex_unfixed_ub. Qed.
+Print Assumptions C19_buf_append_num_hex_unfixed_refuted.
+
+(* ares_buf_parse_dns_binstr / _str (one length-prefixed character-string; with
+   fixes/C19-buf-parse-binstr-enomem.patch): exactly the string bytes (+ terminator) and the
+   cursor behind them, or the documented status; the specification [bufs_parse_binstr] says what
+   stays consumed on failure (the length byte, once it has been read).  Never UB. *)
+Theorem C19_buf_parse_dns_binstr_refines : forall junk ok1 ok2 b rl want validate,
+  buf_inv b -> buf_bytes_ok (buf_remaining b) -> 0 <= rl < 2 ^ 64 ->
+  exists st b' out, buf_parse_dns_binstr_int junk ok1 ok2 b rl want validate = Ok (st, b', out) /\
+    buf_inv b' /\ cb_mem b' = cb_mem b /\
+    (st, buf_abs b', out) = bufs_parse_binstr ok1 ok2 (buf_abs b) rl want validate.
+Proof. exact buf_parse_dns_binstr_refines. Qed.
+Print Assumptions C19_buf_parse_dns_binstr_refines.
+
+(* the model of this container and the read-side model of the wire codec
+   (CAres.Wire.Cursor.parse_dns_binstr) agree: same status, bytes, new offset *)
+Theorem C19_buf_wire_binstr_agree : forall junk b c rl want vp,
+  buf_inv b -> buf_cur_rel b c -> 0 <= rl < 2 ^ 64 ->
+  exists st b' out,
+    buf_parse_dns_binstr_int junk true true b rl want vp = Ok (st, b', out) /\
+    match Cursor.parse_dns_binstr c rl want vp with
+    | Ok (bytes, c') =>
+      st = ARES_SUCCESS /\ out = (if want then Some (map Z.of_N bytes ++ [0]) else None) /\
+      (want = false -> bytes = []) /\ cb_off b' = Cursor.c_off c' /\ buf_cur_rel b' c'
+    | Err e => st = e /\ e <> ARES_SUCCESS /\ out = None
+    | UB _ => False
+    end.
+Proof. exact buf_wire_binstr_agree. Qed.
+Print Assumptions C19_buf_wire_binstr_agree.
+
+Theorem C19_buf_cur_rel_of_bytes : forall bs : list N,
+  Forall (fun x => (x < 256)%N) bs -> 0 < Z.of_nat (length bs) < BUF_ALLOC_LIMIT ->
+  let b := mkBuf (map Z.of_N bs) (buf_zlen (map Z.of_N bs)) 0 0 BUF_SIZE_MAX true false in
+  buf_create_const true (map Z.of_N bs) = Some b /\ buf_inv b /\ buf_cur_rel b (Cursor.cur_of_bytes bs).
+Proof. exact buf_cur_rel_of_bytes. Qed.
+Print Assumptions C19_buf_cur_rel_of_bytes.
+
+(* the remaining tag_fetch variants (round 1 proofs, covered by C19_buf_bytes; listed here) *)
+Theorem C19_buf_tag_fetch_string_refines : forall b cap, buf_inv b -> 0 <= cap ->
+  exists r, buf_tag_fetch_string b cap = Ok r /\ In r (bufs_tag_fetch_string_alts (buf_abs b) cap).
+Proof. exact buf_tag_fetch_string_refines. Qed.
+Print Assumptions C19_buf_tag_fetch_string_refines.
+
+Theorem C19_buf_tag_fetch_strdup_refines : forall ok b, buf_inv b ->
+  exists r, buf_tag_fetch_strdup ok b = Ok r /\ In r (bufs_tag_fetch_strdup_alts ok (buf_abs b)).
+Proof. exact buf_tag_fetch_strdup_refines. Qed.
+Print Assumptions C19_buf_tag_fetch_strdup_refines.
+
+Theorem C19_buf_tag_fetch_constbuf_refines : forall ok b, buf_inv b ->
+  exists st nb, buf_tag_fetch_constbuf ok b = Ok (st, nb) /\
+    In (st, match nb with None => [] | Some x => [buf_remaining x] end)
+       (bufs_tag_fetch_constbuf_alts ok (buf_abs b)) /\
+    match nb with None => True | Some x => buf_inv x end.
+Proof. exact buf_tag_fetch_constbuf_refines. Qed.
+Print Assumptions C19_buf_tag_fetch_constbuf_refines.
+
 From CAres.Dsa Require Import Buf_gen_agree2.
 Theorem C19_buf_fetch_be32_agrees_generated : forall b old,
   buf_inv b -> buf_bytes_ok (buf_remaining b) ->
